@@ -25,6 +25,7 @@ func Extended(thorough bool) []*spec.Spec {
 	out = append(out, XAnnotationCards()...)
 	out = append(out, XIdentifierShapes()...)
 	out = append(out, CtxSpecs()...)
+	out = append(out, CodecHostSpecs()...)
 	out = append(out, RouteSpecs(thorough)...)
 	out = append(out, BindSpecs(thorough)...)
 	out = append(out, FlattenSpecs()...)
